@@ -448,6 +448,28 @@ def m_seq(kind):
             rows.insert(0, {"type": "text", "name": "trg9", "label": "T"})
             rows.extend([{"type": "begin group", "name": "gz9", "label": "G"}, {"type": "text", "name": nm, "label": "D"}, {"type": "end group"}])
             return E(None, False, [nm])
+        if kind in ("space-choice-after-select-one", "space-choice-after-rank", "space-choice-second-multiple"):
+            # the list has a choice name with a space; a select_multiple on it is refused however many other users of the list came first
+            if not q:
+                raise Skip
+            ch[1] = {"list_name": "c", "name": "y y", "label": "Y"}
+            for x in rows:
+                if x.get("type") == "select_multiple c":
+                    x["type"] = "select_one c"
+            rows[k].update(type="select_multiple c", label="L")
+            rows[k].pop("calculation", None)
+            first = {"space-choice-after-select-one": "select_one c", "space-choice-after-rank": "rank c", "space-choice-second-multiple": "select_one c or_other"}[kind]
+            rows.insert(0, {"type": first, "name": "so9", "label": "S"})
+            rows.insert(1, {"type": first, "name": "so8", "label": "S"})
+            return E(None, False, ["y y"])
+        if kind in ("bg-trigger-unknown-after-valid", "bg-trigger-group-after-valid"):
+            # the last of several background-geopoint rows has a trigger naming nothing (or a group): validated at the end of the sheet, for every row
+            if not q:
+                raise Skip
+            rows[k] = {"type": "background-geopoint", "name": rows[k]["name"], "trigger": "${zz}" if "unknown" in kind else "${gtz9}", "_n": i}
+            rows[0:0] = [{"type": "text", "name": "trg9", "label": "T"}, {"type": "background-geopoint", "name": "bgv9", "trigger": "${trg9}"},
+                         {"type": "begin group", "name": "gtz9", "label": "G"}, {"type": "background-geopoint", "name": "bgv8", "trigger": "${trg9}"}, {"type": "end group"}]
+            return E(k + 5, True)
         if kind in ("instance-clash-interleaved", "instance-clash-adjacent"):
             if i != 0:
                 raise Skip
@@ -471,6 +493,11 @@ CATALOGUE = {
     "select-param-label-after-from-file": m_seq("select-param-label-after-from-file"),
     "trigger-target-dup": m_seq("trigger-target-dup"),
     "trigger-geopoint-target-dup": m_seq("trigger-geopoint-target-dup"),
+    "space-choice-after-select-one": m_seq("space-choice-after-select-one"),
+    "space-choice-after-rank": m_seq("space-choice-after-rank"),
+    "space-choice-second-multiple": m_seq("space-choice-second-multiple"),
+    "bg-trigger-unknown-after-valid": m_seq("bg-trigger-unknown-after-valid"),
+    "bg-trigger-group-after-valid": m_seq("bg-trigger-group-after-valid"),
     "instance-clash-interleaved": m_seq("instance-clash-interleaved"),
     "instance-clash-adjacent": m_seq("instance-clash-adjacent"),
     "instance-clash-csv-interleaved": m_seq("instance-clash-csv-interleaved"),
@@ -755,7 +782,7 @@ EXTRA_COLS = ["parameters", "appearance", "choice_filter", "default", "repeat_co
 INTERNAL_COLS = ["bind", "control", "choices", "children", "itemset", "list_name", "columns", "query", "value", "intent",
                  "instance", "media", "parameters::x", "type::x", "name::x", "itemset::x", "action", "actions", "tags", "bind:", "body"]
 EXTRA_VALS = ["", " ", "${q}", "${t0}", "x=1", "rows=a", "randomize=true", "search('f')", "now()", "1", "yes", "seed=${t0}",
-              "${zz}", "a b", "<", "table-list", "field-list", "value=a label=b", "${", "-", "true()", "label", "0", "no"]
+              "${zz}", "a b", "<", "table-list", "field-list", "value=a label=b", "${", "-", "true()", "label", "0", "no", "${data}", "${meta}", "${instanceID}"]
 CHOICE_SHEETS = {
     "normal": [{"list_name": "c", "name": "x", "label": "X"}, {"list_name": "c", "name": "y", "label": "Y"}],
     "absent": None,
